@@ -112,6 +112,10 @@ func c36eRun(ec c36eCase) ([]c36eResult, string, string) {
 	if ec.Cache {
 		cfg.DiscoveryCache.TTLSeconds = 60
 	}
+	// the .kfst time index objects are written by the real TimeIndexBuilder
+	if err := discovery.VerifBuildTimeIndex(ctx, cfg, vsegs); err != nil {
+		return nil, "harness-anomaly", "time index build: " + err.Error()
+	}
 	if ec.Manifest {
 		bcfg := cfg
 		bcfg.Manifest.Enabled = false
@@ -261,7 +265,16 @@ func c36eGen(r *vRand) c36eCase {
 					if slot < 2 {
 						slot = 2
 					}
-					age := slot*10000 + int64(r.Range(-1000, 1000))
+					rslot := slot
+					switch r.Intn(7) {
+					case 0: // late event: much older than its neighbours, the stream's clock does not move
+						rslot = slot + int64(r.Range(3, 12))
+					case 1: // producer clock ahead
+						if slot > 12 {
+							rslot = slot - int64(r.Range(3, 10))
+						}
+					}
+					age := rslot*10000 + int64(r.Range(-1000, 1000))
 					sg.Recs = append(sg.Recs, c36eRec{Off: next, Age: age})
 					ages = append(ages, age)
 					offs = append(offs, next)
@@ -398,6 +411,12 @@ func TestVerifC36E2E(t *testing.T) {
 			{Topic: 0, Part: 0, Base: 0, Footer: true, Complete: true, Recs: []c36eRec{{0, age(100)}, {1, age(80)}, {2, age(60)}}},
 			{Topic: 0, Part: 0, Base: 3, Footer: false, Complete: true, Recs: []c36eRec{{3, age(50)}, {4, age(30)}}}},
 			Queries: []c36eQuery{{TMinAge: p64(age(70))}, {TMinAge: p64(age(70)), Order: 2}, {OMin: p64(2), TMinAge: p64(age(90))}}})
+		// record timestamps out of order: the segment's min and max timestamps are neither its first nor its
+		// last record's; bounds between the first/last record's timestamp and the true min/max
+		runOne(c36eCase{E2E: true, Cache: true, Segs: []c36eSeg{
+			{Topic: 0, Part: 0, Base: 0, Footer: true, Complete: true, Recs: []c36eRec{{0, age(80)}, {1, age(120)}, {2, age(40)}, {3, age(70)}}},
+			{Topic: 0, Part: 0, Base: 4, Footer: true, Complete: true, Recs: []c36eRec{{4, age(30)}, {5, age(60)}, {6, age(20)}}}},
+			Queries: []c36eQuery{{TMaxAge: p64(age(100))}, {TMinAge: p64(age(50))}, {TMinAge: p64(age(65)), TMaxAge: p64(age(35))}, {Last: "455s"}}})
 		r := vNewRand(vSeed() + 4242)
 		n := vN(50, 400)
 		for i := 0; i < n; i++ {
